@@ -647,6 +647,11 @@ func (tic *TermInCommittee) HandleViewChange(vcm *interfaces.ViewChangeMessage) 
 		}
 	}
 
+	if vcm.Block() == nil && header.PreparedProof() != nil && len(header.PreparedProof().Raw()) > 0 {
+		tic.logger.Info("LHMSG RECEIVED VIEW_CHANGE IGNORE - message carries a prepared proof but not the block it certifies")
+		return
+	}
+
 	tic.storage.StoreViewChange(vcm)
 	tic.checkElected(header.BlockHeight(), header.View())
 }
